@@ -24,16 +24,32 @@ Theorem close_closes : forall s fd, k_getfd (fst (k_close s fd)) fd = (fst (k_cl
 Proof. exact close_closes_l. Qed.
 
 (* the child has the parent's descriptor table, cwd and umask and shares all open file descriptions *)
-Theorem fork_child_is_copy : forall s, let s1 := fst (k_fork s) in k_cur s1 = k_cur s /\ k_susp s1 = k_cur s :: k_susp s /\ k_ofd s1 = k_ofd s /\ k_ino s1 = k_ino s /\ snd (k_fork s) = RUnit.
+Theorem fork_child_is_copy : forall s, g_caught (p_sig (k_cur s)) = [] -> let s1 := fst (k_fork s) in p_fds (k_cur s1) = p_fds (k_cur s) /\ p_cwd (k_cur s1) = p_cwd (k_cur s) /\ p_umask (k_cur s1) = p_umask (k_cur s) /\ g_disp (p_sig (k_cur s1)) = g_disp (p_sig (k_cur s)) /\ g_mask (p_sig (k_cur s1)) = g_mask (p_sig (k_cur s)) /\ g_pend (p_sig (k_cur s1)) = [] /\ k_susp s1 = k_cur s :: k_susp s /\ k_ofd s1 = k_ofd s /\ k_ino s1 = k_ino s /\ snd (k_fork s) = RUnit.
 Proof. exact fork_child_is_copy_l. Qed.
 
 (* a position set by the child is the position the parent sees after the child exits *)
-Theorem fork_shares_offset : forall s s1 r1 fd w off s2 n s3, k_fork s = (s1, r1) -> k_lseek s1 fd w off = (s2, ROff n) -> k_exit s2 = (s3, RUnit) -> exists s4, k_lseek s3 fd WCur 0 = (s4, ROff n).
+Theorem fork_shares_offset : forall s s1 fd w off s2 n s3, k_fork s = (s1, RUnit) -> k_lseek s1 fd w off = (s2, ROff n) -> k_exit s2 = (s3, RUnit) -> exists s4, k_lseek s3 fd WCur 0 = (s4, ROff n).
 Proof. exact fork_shares_offset_l. Qed.
 
 (* whatever the child does, the parent's descriptor table, cwd and umask are unchanged *)
 Theorem subshell_isolation : forall s ops, nested 0 ops = true -> k_cur (fst (run s (OFork :: ops ++ [OExit]))) = k_cur s /\ k_susp (fst (run s (OFork :: ops ++ [OExit]))) = k_susp s.
 Proof. exact subshell_isolation_l. Qed.
+
+(* a caught signal raised while not blocked is recorded at once *)
+Theorem raise_caught : forall s sig, (sig < nsig)%N -> mem_n sig (g_mask (p_sig (k_cur s))) = false -> get_disp (g_disp (p_sig (k_cur s))) sig = DCatch -> snd (k_raise s sig) = RUnit /\ mem_n sig (g_caught (p_sig (k_cur (fst (k_raise s sig))))) = true /\ g_pend (p_sig (k_cur (fst (k_raise s sig)))) = g_pend (p_sig (k_cur s)).
+Proof. exact raise_caught_l. Qed.
+
+(* an ignored signal changes nothing *)
+Theorem raise_ignored : forall s sig, (sig < nsig)%N -> get_disp (g_disp (p_sig (k_cur s))) sig = DIgnore -> snd (k_raise s sig) = RUnit /\ p_sig (k_cur (fst (k_raise s sig))) = p_sig (k_cur s).
+Proof. exact raise_ignored_l. Qed.
+
+(* a blocked signal stays pending and is not recorded *)
+Theorem raise_blocked : forall s sig, (sig < nsig)%N -> mem_n sig (g_mask (p_sig (k_cur s))) = true -> get_disp (g_disp (p_sig (k_cur s))) sig = DCatch -> snd (k_raise s sig) = RUnit /\ mem_n sig (g_pend (p_sig (k_cur (fst (k_raise s sig))))) = true /\ g_caught (p_sig (k_cur (fst (k_raise s sig)))) = g_caught (p_sig (k_cur s)).
+Proof. exact raise_blocked_l. Qed.
+
+(* setting the action to ignore discards a pending instance *)
+Theorem ignore_discards_pending : forall s sig, (sig < nsig)%N -> mem_n sig (g_pend (p_sig (k_cur (fst (k_sigaction s sig DIgnore))))) = false.
+Proof. exact ignore_discards_pending_l. Qed.
 
 (* O_APPEND: the bytes go to the end of the file whatever the offset was; the offset ends after them *)
 Theorem append_writes_at_end : forall s fd id o perm data b, get_ofd s fd = Some (id, o) -> o_wr o = true -> o_app o = true -> nth_error (k_ino s) (o_ino o) = Some (IReg perm data) -> nonempty b = true -> snd (k_write s fd b) = RCount (nlen b) /\ nth_error (k_ino (fst (k_write s fd b))) (o_ino o) = Some (IReg perm (data ++ b)) /\ get_ofd (fst (k_write s fd b)) fd = Some (id, mkOfd (o_ino o) (nlen data + nlen b) (o_rd o) (o_wr o) (o_app o)).
@@ -67,6 +83,10 @@ Proof. exact walk_iff_resolves_l. Qed.
 Theorem path_normalisation : forall ino st cs st', walk ino st cs = WOk st' -> walk ino st (norm [] cs) = WOk st'.
 Proof. exact norm_sound_l. Qed.
 
+(* the normal form has no `.` component *)
+Theorem norm_no_dot : forall cs, Forall (fun a => is_dot a = false) (norm [] cs).
+Proof. exact norm_no_dot_l. Qed.
+
 (* the initial state is well formed *)
 Theorem wf_init : forall tree um, wf (init_state tree um).
 Proof. exact wf_init_l. Qed.
@@ -91,6 +111,10 @@ Proof. exact oracle_sound_l. Qed.
 Theorem script_oracle_reflexive : forall o, run_case (CScript o o) = 0%N.
 Proof. exact script_oracle_refl. Qed.
 
+(* equal observations of the three runs of a built-in-only script are accepted *)
+Theorem script3_oracle_reflexive : forall o, run_case (CScript3 o o o) = 0%N.
+Proof. exact script3_oracle_refl. Qed.
+
 (* whatever the oracle accepts is a pair of equal observations *)
 Theorem sys_oracle_complete : forall ops v r, sys_oracle ops v r = None -> sys_agree v r.
 Proof. exact sys_oracle_complete_l. Qed.
@@ -104,7 +128,7 @@ Proof. exact script_oracle_complete_l. Qed.
 Example ex_dup_nonvacuous : exists s1 s2, k_dup ex1 3 10 true = (s1, RFd 10%N) /\ k_lseek s1 10 WSet 2 = (s2, ROff 2).
 Proof. exact ex_dup. Qed.
 
-Example ex_fork_nonvacuous : exists s1 r1 s2 s3, k_fork ex1 = (s1, r1) /\ k_lseek s1 3 WEnd (-1) = (s2, ROff 2) /\ k_exit s2 = (s3, RUnit).
+Example ex_fork_nonvacuous : exists s1 s2 s3, k_fork ex1 = (s1, RUnit) /\ k_lseek s1 3 WEnd (-1) = (s2, ROff 2) /\ k_exit s2 = (s3, RUnit).
 Proof. exact ex_fork. Qed.
 
 Example ex_excl_nonvacuous : exists k sz pm, k_stat ex0 p_f = (ex0, RStat k sz pm) /\ flags_ok AWr fl_creat_excl = true.
@@ -130,6 +154,10 @@ Print Assumptions close_closes.
 Print Assumptions fork_child_is_copy.
 Print Assumptions fork_shares_offset.
 Print Assumptions subshell_isolation.
+Print Assumptions raise_caught.
+Print Assumptions raise_ignored.
+Print Assumptions raise_blocked.
+Print Assumptions ignore_discards_pending.
 Print Assumptions append_writes_at_end.
 Print Assumptions write_read_roundtrip.
 Print Assumptions excl_refuses_existing.
@@ -138,12 +166,14 @@ Print Assumptions umask_masks_creation.
 Print Assumptions mask_spec.
 Print Assumptions walk_iff_resolves.
 Print Assumptions path_normalisation.
+Print Assumptions norm_no_dot.
 Print Assumptions wf_init.
 Print Assumptions step_preserves_wf.
 Print Assumptions wf_reachable.
 Print Assumptions wf_no_dangling.
 Print Assumptions oracle_sound.
 Print Assumptions script_oracle_reflexive.
+Print Assumptions script3_oracle_reflexive.
 Print Assumptions sys_oracle_complete.
 Print Assumptions script_oracle_complete.
 Print Assumptions ex_dup_nonvacuous.
